@@ -19,6 +19,12 @@ class Renamer(ast.NodeTransformer):
         if fn.args.kwarg: params.add(fn.args.kwarg.arg)
         assigned, declared = set(), set()
         for n in ast.walk(fn):
+            if n is not fn and isinstance(n, (ast.FunctionDef, ast.AsyncFunctionDef, ast.Lambda)):
+                # a name that is a parameter of a nested lambda / def shadows the local there: leave it alone
+                aa = n.args
+                declared |= {a.arg for a in aa.posonlyargs + aa.args + aa.kwonlyargs}
+                if aa.vararg: declared.add(aa.vararg.arg)
+                if aa.kwarg: declared.add(aa.kwarg.arg)
             if n is not fn and isinstance(n, (ast.FunctionDef, ast.AsyncFunctionDef, ast.ClassDef)):
                 declared.add(n.name)
             if isinstance(n, ast.Name) and isinstance(n.ctx, (ast.Store, ast.Del)):
